@@ -1,9 +1,10 @@
 import Model.Linear
 import Model.Deliver
+import Model.Forks
 import Driver.Common
 /-! Protocol of the system-level checks (C01, C07, …): the world (module scripts) travels as the text the
 Go harness also puts into the package's binary (harness/sys/spec.go Encode). -/
-open SV SV.Lin SVD
+open SV SV.Lin SV.Fk SVD
 
 namespace SysProto
 
@@ -83,6 +84,35 @@ def step (line : String) : String :=
     if failed.isSome && rest.contains "prod=true" then (match failed with | some b => s!"fail@{b}" | none => "") else
     " ".intercalate (msgs.map fun m => if m.payload.isEmpty then s!"{m.num}e" else s!"{m.num}={hex (normTag m.payload)}") ++
       (match failed with | some b => s!" fail@{b}" | none => "")
+  | "FRK" :: md :: world :: output :: handoff :: gate :: stop :: steps =>
+    -- steps: kind:num:idhex:jnum:jidhex …  answer: the stores after every step, then the messages
+    let w := parseWorld world
+    let cfg : FCfg := ⟨w, nat! md, bytesOf output, nat! gate, nat! stop⟩
+    let used := usedMods w (bytesOf output)
+    let parseStep (s : String) : Option FStep := match s.splitOn ":" with
+      | [k, n, i, jn, ji] =>
+        let kind : StepKind := match k with
+          | "new" => .new | "newfinal" => .newFinal | "undo" => .undo | "stalled" => .stalled | _ => .final
+        some ⟨kind, nat! n, unhexS i, nat! jn, unhexS ji⟩
+      | _ => none
+    let showStores (st : LState) : String :=
+      ",".intercalate ((used.filter (fun m => m.kind == .store)).map fun m =>
+        let s := getStore st m.name
+        (String.ofList (m.name.map fun c => Char.ofNat c.toNat)) ++ "{" ++
+          ",".intercalate ((sortByKey s.kv).map fun q =>
+            let v := if isPrefix pfxSet q.2 then pfxSum ++ q.2.drop 4 else q.2   -- tag normalised as in the harness
+            s!"{hex q.1}={hex v}") ++ "}#" ++ toString s.size)
+    -- the stores as back-filled up to the hand-off: the linear execution of the blocks below it
+    let lowest := used.foldl (fun acc m => min acc m.init) (nat! handoff)
+    let st0 := (runBlocks used (nat! md) (nat! handoff - lowest) lowest ⟨[]⟩).st
+    let init : FState := ⟨st0, [], none, false, [], false⟩
+    let (fs, outs) := (steps.filterMap parseStep).foldl (fun (acc : FState × List String) s =>
+      let fs' := stepF cfg acc.1 s
+      (fs', (if fs'.ended then "end" else showStores fs'.st) :: acc.2)) (init, [])
+    let showMsg : FMsg → String
+      | .data n i p => s!"{n}:{hex i}=" ++ (if p.isEmpty then "-" else hex (normTag p))
+      | .undo n i => s!"U{n}:{hex i}"
+    " | ".intercalate outs.reverse ++ " || " ++ " ".intercalate (fs.msgs.map showMsg)
   | _ => "bad-op"
 
 end SysProto
